@@ -179,3 +179,61 @@ func HarnessTLSSync() {
 	}
 	vCover(changed, "sub-path service with a root-path service reachable")
 }
+
+// HarnessSubpathTLS: the TLS policy a sub-path service actually applies to requests is the root-path service's, in
+// either deploy order and after the root-path service is redeployed with other TLS settings (services built by the
+// real constructor, installed through ServiceMap.Set, requests through the real Service.ServeHTTP).
+func HarnessSubpathTLS() {
+	vFixMapOrderType("requestServiceMap")
+	vSortMode = 0
+	mk := func(name string, prefix string, tlsOn, redirect bool) *Service {
+		opts := ServiceOptions{Hosts: []string{"h"}, PathPrefixes: []string{prefix}, TLSEnabled: tlsOn, TLSRedirect: redirect,
+			TLSCertificatePath: "cert.pem", TLSPrivateKeyPath: "key.pem"}
+		s, err := NewService(name, opts, TargetOptions{HealthCheckConfig: HealthCheckConfig{Path: "/up"}})
+		vAssert(err == nil, "subpath tls: service builds")
+		s.active = vBalancer("t-" + name)
+		return s
+	}
+	rootTLS, rootRedirect := vBool("root_tls"), vBool("root_redirect")
+	root := mk("root", "/", rootTLS, rootRedirect)
+	sub := mk("sub", "/app", vBool("sub_tls"), vBool("sub_redirect"))
+	m := NewServiceMap()
+	if vChoose("subpath_first", 2) == 1 {
+		m.Set(sub)
+		m.Set(root)
+	} else {
+		m.Set(root)
+		m.Set(sub)
+	}
+	switch vChoose("then", 3) {
+	case 1: // the root-path service is redeployed with other TLS settings
+		rootTLS, rootRedirect = vBool("root_tls2"), vBool("root_redirect2")
+		m.Set(mk("root", "/", rootTLS, rootRedirect))
+	case 2: // the sub-path service is redeployed
+		sub = mk("sub", "/app", vBool("sub_tls2"), vBool("sub_redirect2"))
+		m.Set(sub)
+	}
+	overTLS := vChoose("over_tls", 2) == 1
+	u := &url.URL{Path: "/app/x"}
+	vRequestURI[u] = "/app/x"
+	req := &http.Request{Method: "GET", URL: u, Host: "h", Header: http.Header{}}
+	if overTLS {
+		req.TLS = &tls.ConnectionState{}
+	}
+	got, _ := m.ServiceForRequest(req)
+	vAssert(got == sub, "subpath tls: the request is routed to the sub-path service")
+	w := vNewRecorder()
+	sub.ServeHTTP(w, req)
+	w.finish()
+	switch {
+	case rootTLS && rootRedirect && !overTLS:
+		vAssert(w.status == 301 && len(vForwards) == 0, "subpath tls: plain request under a TLS+redirect root-path service => 301")
+	case !rootTLS && overTLS:
+		vAssert(w.status == 503 && len(vForwards) == 0, "subpath tls: TLS request under a root-path service without TLS => 503")
+	default:
+		vAssert(w.status == 200 && len(vForwards) == 1, "subpath tls: an admissible request is forwarded")
+	}
+	vCover(w.status == 301, "redirect reachable")
+	vCover(w.status == 503, "refusal reachable")
+	vCover(w.status == 200, "forward reachable")
+}
